@@ -361,6 +361,46 @@ TARGETS = [
 ]
 
 
+def translate_timer(repo):
+    """scheduler/base/job_timer.py::JobTimer.calc_next_exec (+ the dispatch dict of util.py)"""
+    import py2v_methods as M
+    util = os.path.join(repo, "scheduler/util.py")
+    CURFILE[0] = util
+    utree = ast.parse(open(util).read())
+    known = {}
+    for fd in utree.body:
+        if isinstance(fd, ast.FunctionDef) and fd.name in ("next_daily_occurrence", "next_hourly_occurrence",
+                                                           "next_minutely_occurrence", "next_weekday_time_occurrence"):
+            f = Fn(fd, {})
+            known[fd.name] = ([t for _, t in f.params], f.ret)
+    disp = M.dict_dispatch(utree, "JOB_NEXT_DAYLIKE_MAPPING", "job_next_daylike_mapping", known)
+    path = os.path.join(repo, "scheduler/base/job_timer.py")
+    CURFILE[0] = path
+    tree = ast.parse(open(path).read())
+    fd = M.find_method(tree, "JobTimer", "calc_next_exec")
+    fields = {"__job_type": ("pt_type", "jobtype", None), "__timing": ("pt_timing", "timingu", "set_pt_timing"),
+              "__next_exec": ("pt_next", "datetime", "set_pt_next"), "__skip": ("pt_skip", "bool", None)}
+    dicts = {"JOB_NEXT_DAYLIKE_MAPPING": ("job_next_daylike_mapping", ["datetime", "time"], "datetime")}
+    m0 = M.Method(fd, known, "pytimer", fields, dicts, folded={"ref": "None"})
+    t0 = m0.emit("calc_next_exec_none")
+    m1 = M.Method(fd, known, "pytimer", fields, dicts, recursive_as="calc_next_exec_none")
+    t1 = m1.emit("calc_next_exec")
+    head = HEADER % path + "From Gen Require Import GenOccur.\n\n"
+    return head + disp + "\n" + t0 + "\n" + t1
+
+
+def translate_jobstate(repo):
+    import py2v_methods as M
+    path = os.path.join(repo, "scheduler/base/job.py")
+    CURFILE[0] = path
+    tree = ast.parse(open(path).read())
+    fd = M.find_method(tree, "BaseJob", "has_attempts_remaining")
+    fields = {"__mark_delete": ("pj_mark_delete", "bool", None), "__max_attempts": ("pj_max_attempts", "int", None),
+              "__attempts": ("pj_attempts", "int", None)}
+    m = M.Method(fd, {}, "pyjobstate", fields, {})
+    return HEADER % path + m.emit("has_attempts_remaining")
+
+
 def main():
     if len(sys.argv) != 3:
         print(__doc__)
@@ -378,6 +418,19 @@ def main():
             status[fname] = str(e)
         except (OSError, SyntaxError) as e:
             status[fname] = "untranslatable: cannot read/parse %s: %s" % (src, e)
+    sys.path.insert(0, os.path.dirname(os.path.abspath(__file__)))
+    for fname, fn in (("GenTimer.v", translate_timer), ("GenJobState.v", translate_jobstate)):
+        try:
+            text = fn(repo)
+            with open(os.path.join(outdir, fname), "w") as fh:
+                fh.write(text)
+            status[fname] = "translated"
+        except (OSError, SyntaxError) as e:
+            status[fname] = "untranslatable: cannot read/parse: %s" % e
+        except Exception as e:  # py2v is both __main__ and an imported module: match the class by name
+            if type(e).__name__ != "Untranslatable":
+                raise
+            status[fname] = str(e)
     import json
     with open(os.path.join(outdir, "status.json"), "w") as fh:
         json.dump(status, fh, indent=1)
